@@ -166,6 +166,10 @@ def run(tier, seed, replay_file):
         # always one server with a fallback address: the fallback payload is held while other connections are handled
         fbcfg = CONFIGS[3] if primary is CONFIGS[0] else CONFIGS[0]
         jobs.append(("graph-server-foreign", graph, ("graph-server-foreign", fbcfg, "server", False, 1, 400)))
+        # ... and always the one that also reads identity headers (what the server does to the handshake buffer before it
+        # knows the user is part of what the fallback must receive untouched)
+        if fbcfg is not CONFIGS[3] and primary is not CONFIGS[3]:
+            jobs.append(("graph-server-foreign-eih", graph, ("graph-server-foreign-eih", CONFIGS[3], "server", False, 1, 300)))
     else:
         for ci, cfg in enumerate(CONFIGS):
             for role in ("client", "server"):
